@@ -4,11 +4,11 @@
 package saslfam
 
 import (
-	"net"
 	"crypto/tls"
 	"encoding/base64"
 	"encoding/json"
 	"fmt"
+	"net"
 	"strings"
 	"time"
 
@@ -43,11 +43,13 @@ type Scenario struct {
 
 // Runner replays one scenario.
 type Runner struct {
-	Sc     Scenario
-	Rec    *rec.Recorder
-	T      int
-	TLSDir string
-	Infra  error
+	srvTLS   *tls.Config
+	sessions tls.ClientSessionCache
+	Sc       Scenario
+	Rec      *rec.Recorder
+	T        int
+	TLSDir   string
+	Infra    error
 }
 
 const (
@@ -204,6 +206,10 @@ func (a *adv) Step(j int, mech string, msg []byte, has bool) refsmtp.AuthStep {
 		am := a.cfBare + "," + a.srvFirst + "," + a.cFinalWO
 		text = b64(sasl.ServerSignatureFor(h, "some other password", a.salt, 64, am))
 		a.lastWasV = true
+	case "zeroKeyFinal": // the messages really exchanged, signed with an empty (all-zero) key: anybody on the wire can compute it
+		am := a.cfBare + "," + a.lastFirst + "," + a.cFinalAny
+		text = b64(sasl.ServerSignatureFor(h, "", nil, 0, am))
+		a.lastWasV = true
 	case "emptyFinal": // what a client with empty state would compute itself
 		text = b64(sasl.ServerSignatureFor(h, "", nil, 0, ""))
 		a.lastWasV = true
@@ -266,16 +272,23 @@ func (rn *Runner) transport(cfg refsmtp.Config, tlsver string) (net.Conn, *refsm
 		if tlsver == "1.2" {
 			max = tls.VersionTLS12
 		}
-		cfg.TLS = mat.ServerConfig("ok", max)
+		// one server configuration and one client session cache per scenario: a second connection of the
+		// scenario resumes the TLS session of the first (session tickets)
+		if rn.srvTLS == nil {
+			rn.srvTLS = mat.ServerConfig("ok", max)
+			rn.sessions = tls.NewLRUClientSessionCache(8)
+		}
+		cfg.TLS = rn.srvTLS
 		cfg.Implicit = true
 		srv := refsmtp.New(cfg, r)
 		srv.Go(sv)
-		tc := tls.Client(cl, &tls.Config{ServerName: "mail.example.test", RootCAs: mat.Pool, MaxVersion: max})
+		tc := tls.Client(cl, &tls.Config{ServerName: "mail.example.test", RootCAs: mat.Pool, MaxVersion: max, ClientSessionCache: rn.sessions})
 		_ = tc.SetDeadline(time.Now().Add(20 * time.Second))
 		if err := tc.Handshake(); err != nil {
 			return nil, nil, nil, fmt.Errorf("tls handshake: %w", err)
 		}
 		st := tc.ConnectionState()
+		r.Emit("tlsconn", "version", tlsver, "resumed", st.DidResume)
 		return tc, srv, &st, nil
 	}
 	srv := refsmtp.New(cfg, r)
